@@ -454,3 +454,88 @@ def run_sup_ops(ops):
     elif where in ('entry', 'pass'):
         out.append((None, render_events(cur)))    # ended by ExitNow (or no pass at all)
     return out, render_events(stray)
+
+
+# ------------------------------------------------------------------ routing: pools with several subscriptions
+
+def drain_pool(pool, opts, limit=200):
+    """Dispatch everything the pool has buffered, the listener acknowledging
+    each event at once; returns the bytes that reached its stdin."""
+    before = len(opts.written)
+    n = 0
+    while pool.event_buffer and n < limit:
+        with patched_time(1000.0):
+            pool.dispatch()
+        for proc in pool.processes.values():
+            proc.listener_state = EventListenerStates.READY
+            proc.event = None
+        n += 1
+    return b''.join(d for _, d in opts.written[before:])
+
+
+def run_routing(pool_specs, emissions):
+    """pool_specs: [(pool name, [EventTypes names])]; all pools exist at the
+    same time, as in a running supervisord.  emissions: list of
+      ('state', new_state) | ('tick', reading) | ('log', 'stdout'|'stderr', bytes)
+      | ('comm', 'stdout'|'stderr', bytes) | ('group_add', name) | ('group_remove', name)
+      | ('running',) | ('stopping',) | ('remote', type, data)
+    performed on one real Subprocess / Supervisor / RPC interface.
+
+    Returns (emitted, streams): emitted = [(class name, payload)] in order (as a
+    plain subscriber to Event sees them), streams = {pool name: bytes on that
+    pool's listener stdin}."""
+    from supervisor import rpcinterface
+    events.clear()
+    process.GlobalSerial.serial = -1
+    emitted = []
+    events.subscribe(events.Event, emitted.append)
+    pools = []
+    try:
+        for name, type_names in pool_specs:
+            opts = FakeOptions('supervisor')
+            cfg = FakePoolConfig(opts, name, [getattr(events.EventTypes, t) for t in type_names])
+            pool = process.EventListenerPool(cfg)
+            for proc in pool.processes.values():
+                proc.state = ProcessStates.RUNNING
+                proc.pid = 4242
+                proc.listener_state = EventListenerStates.READY
+                proc.pipes = {'stdin': 7}
+                proc.dispatchers = {7: dispatchers.PInputDispatcher(proc, 'stdin', 7)}
+            pools.append((name, pool, opts))
+        subject = make_subprocess('subject', 'grp', ProcessStates.STOPPED, 77, 0, False, 100.0, 1, (0,))
+        sup = supervisord.Supervisor(FakeOptions())
+        iface = rpcinterface.SupervisorNamespaceRPCInterface(sup)
+        streams = dict((name, b'') for name, _, _ in pools)
+        for em in emissions:
+            k = em[0]
+            if k == 'state':
+                with patched_time(200.0):
+                    subject.change_state(em[1], True)
+            elif k == 'tick':
+                sup.tick(now=em[1])
+            elif k == 'log':
+                cls = events.ProcessLogStdoutEvent if em[1] == 'stdout' else events.ProcessLogStderrEvent
+                events.notify(cls(subject, subject.pid, em[2]))
+            elif k == 'comm':
+                cls = events.ProcessCommunicationStdoutEvent if em[1] == 'stdout' else events.ProcessCommunicationStderrEvent
+                events.notify(cls(subject, subject.pid, em[2]))
+            elif k == 'group_add':
+                sup.add_process_group(FakeSupGroupConfig(em[1]))
+            elif k == 'group_remove':
+                g = sup.process_groups.get(em[1])
+                if g is not None:
+                    g.unstopped = False
+                    sup.remove_process_group(em[1])
+            elif k == 'running':
+                events.notify(events.SupervisorRunningEvent())
+            elif k == 'stopping':
+                events.notify(events.SupervisorStoppingEvent())
+            elif k == 'remote':
+                iface.sendRemoteCommEvent(em[1], em[2])
+            else:
+                raise ValueError(em)
+            for name, pool, opts in pools:
+                streams[name] += drain_pool(pool, opts)
+        return [(type(e).__name__, e.payload(), getattr(e, 'serial', None)) for e in emitted], streams
+    finally:
+        events.clear()
